@@ -331,6 +331,14 @@ func (w SocialWrappedCallbacks) update(c context.Context, a vocab.ActivityStream
 				delete(m, k)
 			}
 		}
+		// Delete top-level values where the raw 'object' being applied had
+		// nils: ActivityPub (6.3.1) has the client supply the null members
+		// inside the object of the Update.
+		for k, v := range rawObjectAt(w.rawActivity, idx) {
+			if _, ok := m[k]; v == nil && ok {
+				delete(m, k)
+			}
+		}
 		newT, err := streams.ToType(c, m)
 		if err != nil {
 			return err
@@ -526,6 +534,24 @@ func (w SocialWrappedCallbacks) block(c context.Context, a vocab.ActivityStreams
 	}
 	if w.Block != nil {
 		return w.Block(c, a)
+	}
+	return nil
+}
+
+// rawObjectAt returns the JSON map literal of the 'object' value at the given
+// index of a raw activity, or nil if that value is not a JSON object.
+func rawObjectAt(rawActivity map[string]interface{}, idx int) map[string]interface{} {
+	switch o := rawActivity["object"].(type) {
+	case map[string]interface{}:
+		if idx == 0 {
+			return o
+		}
+	case []interface{}:
+		if idx >= 0 && idx < len(o) {
+			if m, ok := o[idx].(map[string]interface{}); ok {
+				return m
+			}
+		}
 	}
 	return nil
 }
